@@ -20,6 +20,7 @@ template <class T> static void run_T(Choice &c, Ctx &cx)
     if (wide >= 4) { int K = single ? 30 : (wide == 5 ? 400 : 120); for (auto &col : G.col) for (auto &e : col) { unsigned b = c.u8(); int s = (wide == 5 && (b & 0x80)) ? ((b & 1) ? K : -K) : zigzag((uint8_t)b, K); e.second.re = std::ldexp(e.second.re, s); e.second.im = std::ldexp(e.second.im, s); } G.vkind += "+wide"; }
     // explicit zeros are outside MC64's input contract ("the numerical values of the nonzero entries"): remove them
     for (auto &col : G.col) { std::vector<std::pair<int, Val>> keep; for (auto &e : col) if (e.second.re != 0 || e.second.im != 0) keep.push_back(e); col.swap(keep); }
+    if (getenv("VF_C17_JITTER")) { int q = 0; for (auto &col : G.col) for (auto &e : col) { ++q; e.second.re *= 1.0 + q * std::ldexp(1.0, -18); e.second.im *= 1.0 + q * std::ldexp(1.0, -18); } }   // experiment: break ties
     bool exsing = maybe_exactly_singular(G);
     cx.label(exsing ? "numerically-singular" : "numerically-nonsingular");
     Comp<T> S = to_comp<T>(G, false, c.chance(128) ? &c : nullptr);
